@@ -70,3 +70,24 @@ def run(ctx):
         "libm sin/cos/tan/exp/log/pow as linked into the Lean driver agree with Rust's f64 methods within 2 ulp (checked, not proved)",
         "stack exhaustion on very deep nesting is outside the quantifier (nesting depth <= 60 exercised)",
     ]
+
+
+def replay_input(ctx, rp):
+    """Re-run one recorded request line through the implementation, the model (A) and the property (B)."""
+    import os
+    req = rp["input"]
+    if not vlib.cargo_build(ctx, "c14"):
+        return 1
+    with vlib.Lock("build"):
+        vlib.sh(["lake", "build", "drv_c14"], cwd=vlib.LEAN)
+    rc, out = vlib.run_harness(ctx, "c14", ["replay", req])
+    reqf, implf, modelf = (os.path.join(ctx.rundir, n) for n in ("req.txt", "impl.txt", "model.txt"))
+    reqs, impl = vlib.read_lines(reqf), vlib.read_lines(implf)
+    vlib.run_driver(ctx, "drv_c14", reqf, modelf, args=["model"])
+    model = vlib.read_lines(modelf)
+    fails = vlib.spec_via_driver("drv_c14")(ctx, reqs, impl)
+    print("request:        %s\nimplementation: %s\nmodel:          %s" % (req, impl[0], model[0] if model else "?"))
+    a_ok = bool(model) and eq(req, impl[0], model[0])
+    print("(A) implementation = model: %s" % a_ok)
+    print("(B) property on the implementation's answer: %s" % (fails[0]["why"] if fails else "ok"))
+    return 0 if (a_ok and not fails) else 1
